@@ -292,7 +292,10 @@ def bound_case(ctx, kind, size, cs, isfile, mode, limit=None):
         lag["fed_content"] = fed_content
     raised_at = None
     try:
-        parse(mode, chunks, boundary, before_chunk, file_factory=Sink, max_form_memory_size=limit)
+        if limit is None and (size + cs) % 2:
+            parse(mode, chunks, boundary, before_chunk, file_factory=Sink)  # no limit: the argument left out ...
+        else:
+            parse(mode, chunks, boundary, before_chunk, file_factory=Sink, max_form_memory_size=limit)  # ... or given (None = unlimited)
     except RequestEntityTooLarge:
         raised_at = lag.get("fed_content", 0) + cs  # the chunk being processed may have been (partly) consumed
     except Exception as e:
@@ -309,6 +312,8 @@ def bound_case(ctx, kind, size, cs, isfile, mode, limit=None):
             ctx.violation(f"sink-lags-behind-input|{kind}", case, f"{lag['max']} file bytes fed but not yet written; bound {bound}")
         if raised_at is None and Sink.written != len(content):
             ctx.violation("sink-total-differs", case, f"{Sink.written} vs {len(content)}")
+    if limit is None and raised_at is not None:
+        ctx.violation(f"413-although-no-limit-was-set|{'file' if isfile else 'field'}", case, f"after ~{raised_at} content bytes")
     if limit is not None and not isfile:
         ctx.mon("early-rejection")
         if size > limit:
